@@ -730,8 +730,8 @@ pub fn run(ctx: &Ctx) -> i32 {
             let v: J = serde_json::from_str(&t).unwrap();
             let c = check_doc(&d, &t, &v);
             if !c.findings.is_empty() || c.harness_fault.is_some() {
+                // not a reason to stop: a violation found below outranks this note
                 acc.inconclusive(format!("control document {t} does not pass: {:?}", c.findings.first().map(|f| &f.signature)));
-                return acc;
             }
         }
         // exhaustive: every document of <= max_size nodes
